@@ -354,7 +354,6 @@ func (c *Ctx) c06Handlers(rule string) {
 	}
 }
 
-
 // ruleStateUpdatesKeyedOnly: the quote-state UPDATE statements are unconditional on the stored state
 // (WHERE id = ? only). The PAID revert of the mint op and the UNPAID/PAID adoption of the melt paths
 // rely on it: a predicate on the current state silently turns them into no-ops that report an error.
